@@ -153,6 +153,10 @@ func NewEng(t *rapid.T, cfg EngCfg) *Eng {
 	for _, id := range []string{"A", "B"} {
 		c := stdClient(id, false)
 		c.Secret = e.w.HashSecret("secret-" + id)
+		if id == "A" {
+			// A may ask for an explicit response mode, B may not
+			c.ResponseModes = []fosite.ResponseModeType{fosite.ResponseModeQuery, fosite.ResponseModeFragment, fosite.ResponseModeFormPost}
+		}
 		e.w.AddClient(c, "secret-"+id)
 		e.clients = append(e.clients, id)
 	}
